@@ -20,6 +20,9 @@
 #include "core/Macros.h"
 #include "core/print_error.h"
 
+// Every nested conditional recurses through assemble().
+#define MAX_NESTED_IFS 48
+
 int ifdef_ignore(AsmContext *asm_context)
 {
   char token[TOKENLEN];
@@ -113,6 +116,12 @@ int parse_ifdef(AsmContext *asm_context, int ifndef)
   int ignore_section = 0;
   int param_count; // throw away
 
+  if (asm_context->ifdef_count >= MAX_NESTED_IFS)
+  {
+    print_error(asm_context, "Conditionals are nested too deep");
+    return -1;
+  }
+
   asm_context->ifdef_count++;
 
   asm_context->parsing_ifdef = 1;
@@ -146,6 +155,12 @@ int parse_ifdef(AsmContext *asm_context, int ifndef)
 int parse_if(AsmContext *asm_context)
 {
   int num;
+
+  if (asm_context->ifdef_count >= MAX_NESTED_IFS)
+  {
+    print_error(asm_context, "Conditionals are nested too deep");
+    return -1;
+  }
 
   asm_context->ifdef_count++;
 
